@@ -30,7 +30,7 @@ SKIP = {'Dot11ManagementFrame', 'Dot11ControlTA', 'EAPOL'}   # abstract: covered
 HEAVY = {'BootP', 'DHCP', 'PKTAP', 'Dot11BlockAck', 'RSNEAPOL'}
 # calibrated on this sandbox (16 cores, 90 s / 4 GB per query): the longest buffer every shorter length of which is decided in the quick tier.
 # Byte-walking parsers (option / extension / label / record loops) stop early; the thorough tier goes further (see THOROUGH_MAX).
-QUICK_MAX = {'DNS': 14, 'Dot11Data': 24, 'Dot11QoSData': 13, 'ICMP': 8, 'IP': 20, 'IPv6': 41, 'LLC': 3, 'MPLS': 4, 'RadioTap': 7, 'TCP': 23}
+QUICK_MAX = {'ICMPv6': 8, 'DNS': 14, 'Dot11Data': 24, 'Dot11QoSData': 13, 'ICMP': 8, 'IP': 20, 'IPv6': 41, 'LLC': 3, 'MPLS': 4, 'RadioTap': 3, 'TCP': 23}
 THOROUGH_MAX = dict(QUICK_MAX)  # long fixed headers: fewer lengths in the quick tier
 
 # classes whose constructor never builds an inner layer through a stub (RawPDU payload or none): one stub mode is enough
@@ -39,7 +39,8 @@ NO_INNER = {'TCP', 'UDP', 'ICMP', 'ICMPv6', 'ARP', 'IPSecESP', 'DNS', 'BootP', '
             'Dot11Authentication', 'Dot11Deauthentication', 'Dot11Disassoc', 'Dot11RTS', 'Dot11PSPoll', 'Dot11CFEnd', 'Dot11EndCFAck', 'Dot11Ack', 'Dot11BlockAckRequest',
             'Dot11BlockAck', 'Dot11Control'}
 
-MIN_UNWIND = {}
+MIN_UNWIND = {'BootP': 70, 'DHCP': 70}
+EXTRA_UNWINDSET = {'DHCPv6': {'vp_memcpy.0': 18}}   # relay messages copy two 16-byte addresses   # fixed-size copies through the byte-loop memcpy model (64-byte vend / sname fields)
 # self-described length fields are enumerated concretely (parameter P2), contents stay symbolic: (C++ assumption, values(L))
 PIN = {
     # byte 12 = data offset (enumerated 0..15) << 4 | reserved nibble (fixed to 0: it takes no part in any length computation)
@@ -47,7 +48,8 @@ PIN = {
 }
 
 # which lengths admit an accepted input (default: at least the fixed header)
-ACCEPT = {'DHCPv6': lambda L, h: (True if L >= 8 else None) if L >= 4 else False}
+ACCEPT = {'DHCPv6': lambda L, h: (True if L >= 8 else None) if L >= 4 else False, 'BootP': lambda L, h: None, 'DHCP': lambda L, h: None,
+          'Dot11BlockAck': lambda L, h: None}
 
 DISPATCH = {
     r'_ZN4Tins9Internals13pdu_from_flagENS_9Constants8Ethernet1eEPKhjb': 'vp_stub_dispatch4',
@@ -136,6 +138,6 @@ def instances(tier):
             # every libtins loop over the variable part consumes >= 1 byte per iteration, and every variable-size copy is bounded by it;
             # the fill loop of the symbolic buffer needs L+1.  Too small a bound is reported by the unwinding assertions.
             uw = max(L - h, 0) + 3 + MIN_UNWIND.get(n, 0)
-            out.append(Inst('c01_' + n, 'h_c01_' + n, params=(L, mode, pv), unwind=uw, unwindset={'vp_buf.0': L + 1}, timeout=(90 if tier == 'quick' else 900), mem_gb=(4 if tier == 'quick' else 12), leak=True, accept=(None if (mode == 1 or n in PIN) else ACCEPT.get(n, lambda L, h: L >= h)(L, h)),
+            out.append(Inst('c01_' + n, 'h_c01_' + n, params=(L, mode, pv), unwind=uw, unwindset=dict({'vp_buf.0': L + 1}, **EXTRA_UNWINDSET.get(n, {})), timeout=(90 if tier == 'quick' else 900), mem_gb=(4 if tier == 'quick' else 12), leak=True, accept=(None if (mode == 1 or n in PIN) else ACCEPT.get(n, lambda L, h: L >= h)(L, h)),
                             note='%s(buffer,%d): %d header bytes + %d, inner-stub mode %d' % (n, L, min(L, h), max(0, L - h), mode)))
     return out
